@@ -380,7 +380,7 @@ func TestDirDom(t *testing.T) {
 		g := drawG(t, true, 40, dirClasses, []int{contOrdered, contOrdered, contSimple})
 		return domCase{G: g, Root: rapid.IntRange(0, max(g.N-1, 0)).Draw(t, "root")}
 	}
-	vk.Run(t, "dir-dom", vk.Opts{Quick: 5000, Thorough: 150000, NoCrumb: true}, draw, checkDom)
+	vk.Run(t, "dir-dom", vk.Opts{Quick: 8000, Thorough: 150000, NoCrumb: true}, draw, checkDom)
 	vk.Enumerate(t, "dir-intervals-exh", total*maxN, gen, checkIntervals)
-	vk.Run(t, "dir-intervals", vk.Opts{Quick: 3000, Thorough: 80000, NoCrumb: true}, draw, checkIntervals)
+	vk.Run(t, "dir-intervals", vk.Opts{Quick: 4000, Thorough: 80000, NoCrumb: true}, draw, checkIntervals)
 }
